@@ -114,8 +114,15 @@ impl Args {
 }
 
 /// run a closure, turning a panic into data
+thread_local! {
+    pub static QUIET: std::cell::Cell<bool> = const { std::cell::Cell::new(false) };
+}
+
 pub fn catch<T>(f: impl FnOnce() -> T + std::panic::UnwindSafe) -> Result<T, String> {
-    std::panic::catch_unwind(f).map_err(|e| {
+    QUIET.with(|q| q.set(true));
+    let r = std::panic::catch_unwind(f);
+    QUIET.with(|q| q.set(false));
+    r.map_err(|e| {
         if let Some(s) = e.downcast_ref::<String>() {
             s.clone()
         } else if let Some(s) = e.downcast_ref::<&str>() {
